@@ -91,19 +91,48 @@ def defects_section():
     return "\n".join(out) + "\n"
 
 
+def reseed_status():
+    try:
+        rs = json.load(open(os.path.join(ROOT, "seeded", "RESEED.json")))
+    except Exception:
+        return {}
+    out = {}
+    for r in rs:
+        if not r.get("applies"):
+            out[r["id"]] = "patch no longer applies"
+        elif r.get("caught"):
+            out[r["id"]] = "caught, failing input" if r.get("with_input") else "caught, correspondence"
+        elif r.get("demo") and not r["demo"].get("still_breaks_property"):
+            out[r["id"]] = "no longer breaks the property (a later `fix:` commit removed the precondition); check silent"
+        else:
+            out[r["id"]] = "**missed**"
+    return out
+
+
 def seeded_section(sd):
+    rs = reseed_status()
     out = [rd("90-seeded-head.md")]
-    out.append("| change | site and what was changed | caught by | replay |")
-    out.append("|---|---|---|---|")
+    out.append("| change | site and what was changed | caught by (when evaluated) | replay | re-run on the final tree |")
+    out.append("|---|---|---|---|---|")
     n = c = 0
     for k, v in sd.items():
         n += 1
         c += bool(v["caught_by"])
-        out.append("| %s | %s | %s | %s |" % (k, v["summary"].replace("|", "\\|"),
-                                             ", ".join(v["caught_by"]) or "**missed**",
-                                             "failing input" if v["with_input"] else ("correspondence" if v["caught_by"] else "–")))
+        out.append("| %s | %s | %s | %s | %s |" % (k, v["summary"].replace("|", "\\|"),
+                                                  ", ".join(v["caught_by"]) or "**missed**",
+                                                  "failing input" if v["with_input"] else ("correspondence" if v["caught_by"] else "–"),
+                                                  rs.get(k, "not re-run")))
     out.append("")
-    out.append("%d of %d seeded changes are caught by the registered quick checks as they stand now.\n" % (c, n))
+    out.append("%d of %d seeded changes were caught by the registered quick checks when evaluated.\n" % (c, n))
+    if rs:
+        vals = [rs.get(k, "not re-run") for k in sd]
+        out.append("Re-run of every kept change against the final checks and the final `/repo` (`harness/reseed.py`, "
+                   "`seeded/RESEED.json`): %d caught with a failing input, %d caught as a broken correspondence, %d no longer "
+                   "break the property because a later `fix:` commit removed what they needed (demonstration passes with "
+                   "the change; check silent, as it must be), %d missed, %d patches no longer apply.\n"
+                   % (sum(v == "caught, failing input" for v in vals), sum(v == "caught, correspondence" for v in vals),
+                      sum(v.startswith("no longer breaks") for v in vals), sum(v == "**missed**" for v in vals),
+                      sum(v.startswith("patch no longer") for v in vals)))
     return "\n".join(out) + "\n"
 
 
